@@ -36,7 +36,24 @@ class Gen:
         i = self.r.choice(MEMBERS[g])
         ts, k, t, c = self.fields()
         self.ops.append(f"send {i} {g} {ts} {k} {t} {c}")
-        self.ev.append(dict(sender=i, g=g, wrap=g, root=len(self.ev), honest=True))
+        self.ev.append(dict(sender=i, g=g, wrap=g, root=len(self.ev), honest=True, fields=(ts, k, t, c)))
+        return len(self.ev) - 1
+
+    def copy(self):
+        """ANOTHER member re-sends a byte-exact copy of a stored message's hashed fields (author, timestamp, kind, tags, content —
+        hence the same id) inside its own MLS message: the id commits to the CLAIMED author, not to who encrypted this event"""
+        cands = [n for n, e in enumerate(self.ev) if e.get("honest") and e.get("fields") and e["g"] in (0, 1) and n in self.got[3]]
+        if not cands:
+            return None
+        n = self.r.choice(cands)
+        e = self.ev[n]
+        others = [i for i in MEMBERS[e["g"]] if i != e["sender"]]
+        if not others:
+            return None
+        i = self.r.choice(others)
+        ts, k, t, c = e["fields"]
+        self.ops.append(f"adv {i} {e['g']} c{e['sender']} none {ts} {k} {t} {c} {e['g']}")
+        self.ev.append(dict(sender=i, g=e["g"], wrap=e["g"], root=len(self.ev), honest=False))
         return len(self.ev) - 1
 
     def adv(self, target=None):
@@ -117,7 +134,12 @@ def gen_case(rng, k):
             for _ in range(rng.randrange(1, 3)):
                 g.deliver(e)
         elif x < 0.62:
-            g.deliver(g.outsider())
+            e = g.copy() if rng.random() < 0.5 else None
+            if e is not None:
+                g.deliver(e, 3)
+                g.deliver(e, rng.choice([3, 0, 2]))
+            else:
+                g.deliver(g.outsider())
         elif x < 0.80:
             e = rng.randrange(len(g.ev))
             e2 = g.rewrap(e) if rng.random() < 0.6 else g.retag(e, rng.choice([0, 1, 2]))
